@@ -32,6 +32,18 @@ func A[T any](site int32, p *T) *T {
 	return p
 }
 
+// AV marks an atomic read-modify-write or store on *p and returns v unchanged. The
+// instrumenter wraps the LAST argument of the atomic call with it, so that the scheduling
+// point sits immediately before the atomic operation itself - after every other operand
+// (which may contain atomic loads of its own, as in x.CompareAndSwap(old, old.next.Load()))
+// has been evaluated.
+func AV[P any, T any](site int32, p *P, v T) T {
+	if sharedOn {
+		sharedSlow(site, uintptr(unsafe.Pointer(p)), 2)
+	}
+	return v
+}
+
 // AL marks an atomic load.
 func AL[T any](site int32, p *T) *T {
 	if sharedOn {
@@ -40,9 +52,20 @@ func AL[T any](site int32, p *T) *T {
 	return p
 }
 
+// Profiling makes the shared-access wrappers count their executions (SiteHits) outside a
+// simulation: a harness uses it to learn, sequentially, which operations touch which shared
+// library state.
+var Profiling bool
+
 func sharedSlow(site int32, addr uintptr, mode int) {
 	s := cur
-	if s == nil || s.tearing {
+	if s == nil {
+		if Profiling {
+			SiteHits[site]++
+		}
+		return
+	}
+	if s.tearing {
 		return
 	}
 	if s.sharedOn != nil && int(site) < len(s.sharedOn) && !s.sharedOn[site] {
@@ -88,7 +111,13 @@ func P[T any](site int32, p *T, write bool) *T {
 
 func pSlow(site int32, addr uintptr, write bool) {
 	s := cur
-	if s == nil || !s.cfg.HB || s.tearing || addr == 0 {
+	if s == nil {
+		if Profiling {
+			SiteHits[site]++
+		}
+		return
+	}
+	if !s.cfg.HB || s.tearing || addr == 0 {
 		return
 	}
 	if s.sharedOn != nil && int(site) < len(s.sharedOn) && !s.sharedOn[site] {
@@ -111,6 +140,9 @@ func pSlow(site int32, addr uintptr, write bool) {
 // modelled as an acquire+release on the object, which over-approximates happens-before
 // (it can hide a race, never invent one).
 func SyncObj[T any](site int32, p *T) *T {
+	if sharedOn && cur == nil && Profiling {
+		SiteHits[site]++
+	}
 	if sharedOn {
 		if s := cur; s != nil && s.cfg.HB && !s.tearing {
 			if t := s.caller(); t != nil {
